@@ -53,7 +53,10 @@ func c06Variants() []c06Variant {
 		c06vars = append(c06vars, c06Variant{q, o})
 	}
 	for s := 0; s < model.NShapes; s++ {
-		add(model.BuildShape(base, s))
+		q := model.BuildShape(base, s)
+		o := model.ObserveAs(q, base)
+		o.AdoptMeta(base)
+		c06vars = append(c06vars, c06Variant{q, o})
 	}
 	q := model.Build(base)
 	first := func(v []*string) *string { return v[0] }
